@@ -208,6 +208,17 @@ CHECKS = {
         "identical(): only True answers are judged. Byte widths use a byte-atom value alphabet.",
         "DESIGN.md §2 C08",
     ),
+    "C09": (
+        "model_checking",
+        "explicit-state BFS over expressions (E1) with the Z3 round trip applied to every distinct state; exhaustive enumeration of Z3 declaration kinds x operand shapes for the reverse operator map; enumeration of constraint lists for Solver.simplify; truth-table / ground-evaluation oracle",
+        "(a) every distinct symbolic E1 state (widths 1-3, thorough 1-4 depth 2) through claripy.simplify twice and "
+        "backends.z3.simplify, plus an FP expression family (all rounding modes, fpIsNaN / fpIsInf) compared over the FP "
+        "alphabet; (b) every BV / Bool Z3 declaration kind buildable through the z3 API abstracted back and compared under "
+        "every assignment, judged for kinds the translation produces or the simplifier emitted; (c) every constraint list "
+        "of <= 2 (3) constraints x pre-query on five frontend classes: model set unchanged by simplify().",
+        "Reverse-map mismatches on kinds never produced nor emitted (bvsmod, repeat, n-ary distinct) are reported as latent in the evidence, not as violations.",
+        "DESIGN.md §2 C09",
+    ),
 }
 
 NOT_YET = "check not built yet in this session (planned; see DESIGN.md §2)"
